@@ -83,6 +83,14 @@ def blockon_scn(r, sid):
         ops = ["wakeup" for _ in range(r.choice([0, 1, 3]))]
         sched = [0, 0] + [r.choice([0, 1, 1]) for _ in range(12)]
         return {"id": sid, "kind": "blockon", "threads": {"1": ops}, "loop": [{"op": "block_on_timeout", "need": ms}], "schedule": sched}
+    if r.random() < 0.25:
+        # several block_on calls on the SAME loop, one after the other: each polls its future first
+        n1 = r.choice([0, 0, 1])
+        ops = [{"op": "wake", "f": 0} for _ in range(n1)]
+        sched = [0, 0] + [r.choice([0, 0, 1]) for _ in range(16)]
+        return {"id": sid, "kind": "blockon", "threads": {"1": ops},
+                "loop": [{"op": "block_on", "need": n1}, {"op": "block_on", "need": 0}] + ([{"op": "block_on", "need": 0}] if r.random() < 0.4 else []),
+                "schedule": sched}
     need = r.choice([0, 1, 2])
     stop_first = r.random() < 0.3
     ops = [{"op": "wake", "f": 0} for _ in range(need + r.choice([0, 1]))]
